@@ -424,7 +424,7 @@ func (fr *Frame) findLoops() bool {
 	for h := range fr.loops {
 		heads = append(heads, h)
 	}
-	sort.Slice(heads, func(i, j int) bool { return loopPos(fr.loops[heads[i]]) < loopPos(fr.loops[heads[j]]) })
+	sort.Slice(heads, func(i, j int) bool { return heads[i].Index < heads[j].Index }) // block order follows source order
 	for i, h := range heads {
 		fr.loops[h].ord = i + 1
 		if fr.contract != nil {
@@ -631,6 +631,19 @@ func (fr *Frame) instr(in ssa.Instruction) {
 		et := x.Type().Underlying().(*types.Pointer).Elem()
 		if _, isArr := et.Underlying().(*types.Array); !isArr {
 			ex.store(fr.curMem, et, r, ex.D.zero(et))
+		}
+		if ut := ex.unstructuredType(); ut != nil && types.Identical(et, ut) && !allocGetsObjectField(x) {
+			// a zero unstructured object: its content map is modelled as allocated eagerly (fresh, empty); see DESIGN §5
+			ex.needUmap()
+			m := ex.freshRef("umap_" + sanitize(x.Comment))
+			ex.emit("(assert (= (umap %s) %s))", r, m)
+			mt := ut.Underlying().(*types.Struct).Field(0).Type()
+			ex.store(fr.curMem, mt, ex.D.fieldAddr(ut, 0, r), m)
+			if mm, ok := mt.Underlying().(*types.Map); ok {
+				has, _, ks, _ := ex.mapArrays(mm)
+				ex.memSet(fr.curMem, has, fmt.Sprintf("(store %s %s ((as const (Array %s Bool)) false))", ex.memGet(fr.curMem, has), m, ks))
+				ex.memSet(fr.curMem, "ML", fmt.Sprintf("(store %s %s 0)", ex.memGet(fr.curMem, "ML"), m))
+			}
 		}
 	case *ssa.FieldAddr:
 		pt := x.X.Type().Underlying().(*types.Pointer).Elem()
@@ -1216,4 +1229,21 @@ func rootGlobal(v ssa.Value) *ssa.Global {
 			return nil
 		}
 	}
+}
+
+// allocGetsObjectField: the allocation is a composite literal that sets field 0 (Object) explicitly.
+func allocGetsObjectField(a *ssa.Alloc) bool {
+	if a.Referrers() == nil {
+		return false
+	}
+	for _, r := range *a.Referrers() {
+		if fa, ok := r.(*ssa.FieldAddr); ok && fa.Field == 0 && fa.Referrers() != nil {
+			for _, r2 := range *fa.Referrers() {
+				if st, ok := r2.(*ssa.Store); ok && st.Addr == fa {
+					return true
+				}
+			}
+		}
+	}
+	return false
 }
